@@ -20,15 +20,18 @@ Print Assumptions C13_exact.
 
 (* "exactly that named type": the substitution touches a type only if it IS a named type that is
    a key; pointer, slice, array, map, channel, function and basic types - hence also a variadic
-   parameter, whose type is a slice - are left alone whatever they contain. *)
+   parameter, whose type is a slice - are left alone whatever they contain; so is a type
+   parameter of a generic interface, also when a package-level type of its name is a key. *)
 Theorem C13_exact_positions : forall rt,
   (forall t, (forall p n, t <> TNamed p n) -> subst_top rt t = t)
   /\ (forall p n, subst_top rt (TNamed p n)
                   = match rget (p, n) rt with Some (rp, rn) => TNamed rp rn | None => TNamed p n end)
-  /\ (forall n e, add_var rt (n, TSlice e) = add_var [] (n, TSlice e)).
+  /\ (forall n e, add_var rt (n, TSlice e) = add_var [] (n, TSlice e))
+  /\ (forall n x, add_var rt (n, TParam x) = add_var [] (n, TParam x)).
 Proof.
   intros rt. split; [intros t H; apply subst_top_only_named; exact H|].
-  split; [intros; apply subst_top_named | intros; apply variadic_untouched].
+  split; [intros; apply subst_top_named|].
+  split; [intros; apply variadic_untouched | intros; apply tparam_untouched].
 Qed.
 Print Assumptions C13_exact_positions.
 
@@ -60,9 +63,9 @@ Print Assumptions C13_imports_iff_referenced.
 (* Levels: with C08's merge, a key written at whichever level of the mock's chain (configs entry,
    interface config, package config, top level) and not overridden by a more specific level is
    the replacement the mock is generated with. *)
-Theorem C13_levels : forall disc t m c k r nt,
+Theorem C13_levels : forall rx disc t m c k r nt,
   untouched disc (m_pkg m) ->
-  mock_cfg (init_pure disc (init_pure disc t)) m = Some c ->
+  mock_cfg (init_pure rx disc (init_pure rx disc t)) m = Some c ->
   first_some (map (fun x => rget k (c_rt x)) (written_chain t m)) = Some r ->
   snd nt = TNamed (fst k) (snd k) ->
   v_ty (add_var (c_rt c) nt) = TNamed (fst r) (snd r) /\ v_imports (add_var (c_rt c) nt) = [fst r].
